@@ -228,6 +228,7 @@ type Item struct {
 	Kind  int    `json:",omitempty"` // 0 plain, 1 string literal, 2 quoted identifier
 	Class string `json:",omitempty"`
 	Glue  bool   `json:",omitempty"` // no separator may follow (comfort: call parenthesis, omitted '*')
+	Mark  bool   `json:",omitempty"` // error-line family: the token the parser must stop at
 }
 
 func (it Item) text() string {
@@ -279,6 +280,8 @@ type C15Case struct {
 	Raw      string `json:",omitempty"` // malformed stream: the input itself (as Go string, may be invalid UTF-8 -> RawHex)
 	RawHex   string `json:",omitempty"`
 	Stray    bool   `json:",omitempty"` // error-line case: the last lexeme is a stray token
+	Offend   int    `json:",omitempty"` // error-line case: 1 + index of the item the parser must stop at
+	MustOK   bool   `json:",omitempty"` // the program must parse (quoted identifiers that spell keywords ...)
 	Note     string `json:",omitempty"`
 }
 
@@ -365,14 +368,23 @@ func (g *pgen) quoted(s string) {
 	g.out = append(g.out, Item{Text: t, Canon: t, Toks: []PTok{{tIdent, s}}, Kind: 2, Class: "quoted"})
 }
 
+// quotedPool: contents of quoted identifiers that meet another feature of the scanner when (wrongly) looked up or
+// rescanned: every keyword and text operator of the configuration, numbers, alias runes, comment openers, operators
+func quotedPool(cfg *tokCfg) []string {
+	pool := []string{"a b", "x•y", "k//c", "1", "42", "1.5", "2e3", "•", "×", "÷", "–", "ˆ", "²", "//", "/*", "*/", "/*x*/", "//x",
+		"+", "->", "=", "(", ")", "\"", " ", "\\", "a.b", "-1", "if then", "x y z"}
+	if cfg != nil {
+		pool = append(pool, cfg.Keywords...)
+		pool = append(pool, sortedKeys(cfg.TextOps)...)
+		pool = append(pool, cfg.Ops...)
+	}
+	return pool
+}
+
 func (g *pgen) quotedName() string {
-	switch g.r.Pick(4) {
-	case 0:
-		return "a b"
-	case 1:
-		return "x•y"
-	case 2:
-		return "k//c"
+	if g.r.Chance(0.6) {
+		pool := quotedPool(g.cfg)
+		return pool[g.r.Pick(len(pool))]
 	}
 	var rs []rune
 	for i := g.r.Pick(6); i >= 0; i-- {
@@ -962,6 +974,9 @@ func (x *c15run) runLayout(cs C15Case, source string) {
 					}
 				}
 				sig = fmt.Sprintf("%s-literal|%s", cs.Items[k].Class, cls)
+			} else if cs.Items[k].Kind != 0 && i < len(obs) && i < len(exp) && exp[i].Img == obs[i].Img {
+				// the literal's content is right but it is not the literal's token type (keyword lookup on a quoted identifier ...)
+				sig = fmt.Sprintf("%s-literal|token-type", cs.Items[k].Class)
 			} else {
 				sig = boundarySig(cs.Items, k)
 			}
@@ -1013,6 +1028,32 @@ func (x *c15run) runLayout(cs C15Case, source string) {
 			what = fmt.Sprintf("syntax error reported in line %d, the offending token starts on line %d (%v)", line, want, err)
 		}
 		sum.Count("parse", "stray")
+	}
+	// oracle 3a (Go): error-line family - the parser stops at the marked token and reports the line it starts on
+	if sig == "" && cs.Offend > 0 && cfg.parser != nil {
+		want := 1
+		for _, it := range cs.Items[:cs.Offend-1] {
+			want += strings.Count(it.text(), "\n")
+		}
+		_, line, err := cfg.parse(input)
+		if err == nil {
+			sig, what = "error-line|"+cs.Note+"|accepted", "input with an injected syntax error parses"
+		} else if line != want {
+			sig = "error-line|" + cs.Note
+			what = fmt.Sprintf("syntax error reported in line %d, the offending token %q starts on line %d (%v)", line, cs.Items[cs.Offend-1].Text, want, err)
+		}
+		sum.Count("parse", "error-line")
+		if want > 1 {
+			sum.Count("error_line_position", "offending token behind a line break")
+		} else {
+			sum.Count("error_line_position", "offending token on line 1")
+		}
+	}
+	// oracle 3b (Go): programs that only use quoted identifiers in name positions must parse
+	if sig == "" && cs.MustOK && cfg.parser != nil {
+		if _, _, err := cfg.parse(input); err != nil {
+			sig, what = "quoted-literal|must-parse", "a program whose names are quoted identifiers does not parse: "+err.Error()
+		}
 	}
 	// oracle 4 (Go): a lone string literal evaluates to the string it spells
 	if sig == "" && len(cs.Items) == 1 && cs.Items[0].Kind == 1 {
@@ -1205,6 +1246,39 @@ func (x *c15run) comfortPatterns() {
 	}
 }
 
+// quoted identifiers take their content literally: every pool content alone, and every keyword as a let name,
+// map key and map-access key (these programs must parse)
+func (x *c15run) quotedPoolCases() {
+	q := func(s string) Item {
+		t := "'" + s + "'"
+		return Item{Text: t, Canon: t, Toks: []PTok{{tIdent, s}}, Kind: 2, Class: "quoted"}
+	}
+	bl := sepItem(Sep{Kind: "blank"})
+	kw := func(n string) Item { return plain(n, "keyword", PTok{tKeyWord, n}) }
+	op := func(n string) Item { return plain(n, "op", PTok{tOperate, n}) }
+	num := func(n string) Item { return plain(n, "number", PTok{tNumber, n}) }
+	for _, name := range []string{"value", "custom"} {
+		cfg := getCfg(name, true, false)
+		for _, c := range quotedPool(cfg) {
+			if strings.ContainsAny(c, "'\n") {
+				continue
+			}
+			x.sum.Nontriv("quoted-pool|" + name + "|" + c)
+			x.runLayout(C15Case{Cfg: name, Comments: true, Items: []Item{q(c)}}, "quoted-pool")
+			x.runLayout(C15Case{Cfg: name, Comments: false, Comfort: true, Items: []Item{num("2"), bl, plain("", "implicit", PTok{tOperate, "*"}), q(c)}}, "quoted-pool")
+		}
+	}
+	cfg := getCfg("value", true, false)
+	for _, k := range cfg.Keywords {
+		// let 'k' = 1; 'k'+1
+		x.runLayout(C15Case{Cfg: "value", Comments: true, MustOK: true, Items: []Item{kw("let"), bl, q(k), bl, op("="), bl, num("1"),
+			plain(";", "punct", PTok{tSemicolon, ";"}), bl, q(k), op("+"), num("1")}}, "quoted-keyword")
+		// {'k':1}.'k'
+		x.runLayout(C15Case{Cfg: "value", Comments: true, MustOK: true, Items: []Item{plain("{", "bracket", PTok{tOpenCurly, "{"}), q(k),
+			plain(":", "punct", PTok{tColon, ":"}), num("1"), plain("}", "bracket", PTok{tCloseCurly, "}"}), plain(".", "punct", PTok{tDot, "."}), q(k)}}, "quoted-keyword")
+	}
+}
+
 func (x *c15run) literalCases(r *Rng, n int) {
 	g := &pgen{r: r}
 	for i := 0; i < n; i++ {
@@ -1234,10 +1308,300 @@ func (x *c15run) literalCases(r *Rng, n int) {
 				}
 				return c
 			}, s)
+			if r.Chance(0.4) {
+				s = g.quotedName()
+			}
 			g.quoted(s)
 			x.sum.Nontriv("quoted|" + literalSig(g.out[0]))
 		}
 		x.runLayout(C15Case{Cfg: "value", Comments: g.cfg.Comments, Comfort: g.cfg.Comfort, Items: g.out}, "literal")
+	}
+}
+
+// ---------------------------------------------------------------- error-line family
+// A valid skeleton with generated sub-expressions in which one token is dropped, replaced or inserted so that the
+// parser must stop at a token known by construction (Mark); the layout around it has line breaks of every kind.
+// Oracle: Parse fails and the line it reports is the line on which the marked token starts.
+
+var safeNumbers = []string{"0", "1", "42", "1.5", "2e3", "7", "3.25", "10"}
+
+// safeExpr emits a generated expression that parses on its own (so that no earlier error hides the injected one)
+func (g *pgen) safeExpr(d int) {
+	for try := 0; try < 6; try++ {
+		h := &pgen{r: g.r, cfg: g.cfg}
+		h.expr(d)
+		ok := true
+		for _, it := range h.out {
+			if it.Class == "number" && !strings.Contains(" "+strings.Join(safeNumbers, " ")+" ", " "+it.Text+" ") {
+				ok = false
+			}
+		}
+		if ok {
+			if _, _, err := g.cfg.parse(canonText(h.out)); err == nil {
+				g.out = append(g.out, h.out...)
+				return
+			}
+		}
+	}
+	g.lex("x1", "x1", "ident", PTok{tIdent, "x1"})
+}
+
+// offAtom emits the marked token: something that can never continue a complete expression
+func (g *pgen) offAtom() {
+	switch g.r.Pick(4) {
+	case 0:
+		n := safeNumbers[g.r.Pick(len(safeNumbers))]
+		g.lex(n, n, "number", PTok{tNumber, n})
+	case 1:
+		g.strLit("s")
+	default:
+		n := identPool[g.r.Pick(len(identPool))]
+		g.lex(n, n, "ident", PTok{tIdent, n})
+	}
+	g.mark()
+}
+func (g *pgen) mark() { g.out[len(g.out)-1].Mark = true }
+func (g *pgen) name() {
+	n := identPool[g.r.Pick(len(identPool))]
+	g.lex(n, n, "ident", PTok{tIdent, n})
+}
+func (g *pgen) num() {
+	n := safeNumbers[g.r.Pick(len(safeNumbers))]
+	g.lex(n, n, "number", PTok{tNumber, n})
+}
+
+type errKind struct {
+	name  string
+	build func(g *pgen)
+}
+
+var errKinds = []errKind{
+	{"map-missing-comma", func(g *pgen) {
+		ks := g.r.Perm(len(identPool)) // distinct keys: a repeated key is an error of its own
+		key := func(i int) {
+			n := identPool[ks[i]]
+			g.lex(n, n, "ident", PTok{tIdent, n})
+		}
+		g.punct("{", tOpenCurly, "bracket")
+		key(0)
+		g.punct(":", tColon, "punct")
+		g.safeExpr(1)
+		if g.r.Chance(0.5) {
+			g.punct(",", tComma, "punct")
+			key(1)
+			g.punct(":", tColon, "punct")
+			g.safeExpr(1)
+		}
+		key(2)
+		g.mark()
+		g.punct(":", tColon, "punct")
+		g.safeExpr(0)
+		g.punct("}", tCloseCurly, "bracket")
+	}},
+	{"map-value-then-atom", func(g *pgen) {
+		g.punct("{", tOpenCurly, "bracket")
+		g.name()
+		g.punct(":", tColon, "punct")
+		g.safeExpr(1)
+		g.offAtom()
+		g.punct("}", tCloseCurly, "bracket")
+	}},
+	{"map-wrong-closer", func(g *pgen) {
+		g.punct("{", tOpenCurly, "bracket")
+		g.name()
+		g.punct(":", tColon, "punct")
+		g.safeExpr(1)
+		g.punct(")", tClose, "close")
+		g.mark()
+	}},
+	{"map-missing-colon", func(g *pgen) {
+		g.punct("{", tOpenCurly, "bracket")
+		g.name()
+		g.op("=")
+		g.mark()
+		g.safeExpr(0)
+		g.punct("}", tCloseCurly, "bracket")
+	}},
+	{"list-missing-comma", func(g *pgen) {
+		g.punct("[", tOpenBracket, "bracket")
+		g.safeExpr(1)
+		if g.r.Chance(0.5) {
+			g.punct(",", tComma, "punct")
+			g.safeExpr(1)
+		}
+		g.offAtom()
+		g.punct("]", tCloseBracket, "bracket")
+	}},
+	{"list-wrong-closer", func(g *pgen) {
+		g.punct("[", tOpenBracket, "bracket")
+		g.safeExpr(1)
+		g.punct(")", tClose, "close")
+		g.mark()
+	}},
+	{"args-missing-comma", func(g *pgen) {
+		g.name()
+		g.punct("(", tOpen, "open")
+		g.safeExpr(1)
+		g.offAtom()
+		g.punct(")", tClose, "close")
+	}},
+	{"method-args-missing-comma", func(g *pgen) {
+		g.name()
+		g.punct(".", tDot, "punct")
+		g.name()
+		g.punct("(", tOpen, "open")
+		g.safeExpr(1)
+		g.punct(",", tComma, "punct")
+		g.safeExpr(0)
+		g.offAtom()
+		g.punct(")", tClose, "close")
+	}},
+	{"paren-wrong-closer", func(g *pgen) {
+		g.punct("(", tOpen, "open")
+		g.safeExpr(1)
+		g.punct("]", tCloseBracket, "bracket")
+		g.mark()
+	}},
+	{"index-wrong-closer", func(g *pgen) {
+		g.name()
+		g.punct("[", tOpenBracket, "bracket")
+		g.safeExpr(1)
+		g.punct(")", tClose, "close")
+		g.mark()
+	}},
+	{"if-missing-then", func(g *pgen) {
+		g.kw("if")
+		g.safeExpr(1)
+		g.offAtom()
+		g.kw("else")
+		g.safeExpr(0)
+	}},
+	{"if-missing-else", func(g *pgen) {
+		g.kw("if")
+		g.safeExpr(1)
+		g.kw("then")
+		g.safeExpr(1)
+		g.offAtom()
+	}},
+	{"let-no-name", func(g *pgen) {
+		g.kw("let")
+		g.num()
+		g.mark()
+		g.op("=")
+		g.safeExpr(0)
+		g.punct(";", tSemicolon, "punct")
+		g.safeExpr(0)
+	}},
+	{"let-no-assign", func(g *pgen) {
+		g.kw("let")
+		g.name()
+		g.offAtom()
+		g.punct(";", tSemicolon, "punct")
+		g.safeExpr(0)
+	}},
+	{"let-no-semicolon", func(g *pgen) {
+		g.kw("let")
+		g.name()
+		g.op("=")
+		g.safeExpr(1)
+		g.offAtom()
+	}},
+	{"func-no-name", func(g *pgen) {
+		g.kw("func")
+		g.num()
+		g.mark()
+		g.punct("(", tOpen, "open")
+		g.name()
+		g.punct(")", tClose, "close")
+		g.safeExpr(0)
+		g.punct(";", tSemicolon, "punct")
+		g.safeExpr(0)
+	}},
+	{"func-no-paren", func(g *pgen) {
+		g.kw("func")
+		g.name()
+		g.punct("[", tOpenBracket, "bracket")
+		g.mark()
+		g.name()
+		g.punct(")", tClose, "close")
+		g.safeExpr(0)
+	}},
+	{"func-params-missing-comma", func(g *pgen) {
+		g.kw("func")
+		g.name()
+		g.punct("(", tOpen, "open")
+		g.lex("q", "q", "ident", PTok{tIdent, "q"})
+		g.num()
+		g.mark()
+		g.punct(")", tClose, "close")
+		g.safeExpr(0)
+		g.punct(";", tSemicolon, "punct")
+		g.safeExpr(0)
+	}},
+	{"try-no-catch", func(g *pgen) {
+		g.kw("try")
+		g.safeExpr(1)
+		g.offAtom()
+	}},
+	{"switch-case-no-colon", func(g *pgen) {
+		g.kw("switch")
+		g.safeExpr(0)
+		g.kw("case")
+		g.num()
+		g.offAtom()
+		g.kw("default")
+		g.safeExpr(0)
+	}},
+	{"dot-no-name", func(g *pgen) {
+		g.name()
+		g.punct(".", tDot, "punct")
+		g.num()
+		g.mark()
+	}},
+	{"trailing-closer", func(g *pgen) {
+		g.safeExpr(2)
+		g.punct(")", tClose, "close")
+		g.mark()
+	}},
+	{"trailing-atom", func(g *pgen) {
+		g.safeExpr(2)
+		g.offAtom()
+	}},
+	{"stray-inside", func(g *pgen) {
+		g.punct("[", tOpenBracket, "bracket")
+		g.safeExpr(1)
+		g.punct(",", tComma, "punct")
+		g.lex("§", "§", "stray", PTok{tInvalid, "§"})
+		g.mark()
+		g.punct("]", tCloseBracket, "bracket")
+	}},
+}
+
+func (x *c15run) errorLineCases(r *Rng, n int) {
+	for i := 0; i < n; i++ {
+		k := errKinds[i%len(errKinds)]
+		cfg := getCfg("value", r.Chance(0.7), false)
+		g := &pgen{r: r, cfg: cfg}
+		// some valid let/func headers in front, so that the broken construct is not on the first lines
+		for j := r.Pick(3); j > 0; j-- {
+			g.kw("let")
+			g.name()
+			g.op("=")
+			g.safeExpr(1)
+			g.punct(";", tSemicolon, "punct")
+		}
+		k.build(g)
+		items := g.layout(g.out, "random")
+		off := 0
+		for j, it := range items {
+			if it.Mark {
+				off = j + 1
+			}
+		}
+		// drop a comment running to the end of input if it would swallow the marked token (cannot: it is last) - keep as is
+		x.sum.Count("error_kinds", k.name)
+		x.sum.Nontriv("error-line|" + k.name + "|" + sepKinds(items, off-1))
+		x.runLayout(C15Case{Cfg: "value", Comments: cfg.Comments, Items: items, Offend: off, Note: k.name}, "error-line")
 	}
 }
 
@@ -1362,14 +1726,14 @@ func (x *c15run) malformed(r *Rng, n int) {
 }
 
 func cmdC15(seed int64, tier, outDir string) {
-	nProg, nLit, nMal := 750, 250, 300
+	nProg, nLit, nMal, nErr := 550, 250, 250, 240
 	if tier == "thorough" {
-		nProg, nLit, nMal = 40000, 10000, 12000
+		nProg, nLit, nMal, nErr = 40000, 10000, 12000, 12000
 	}
 	r := NewRng(seed)
 	sum := NewSummary("C15", seed, tier)
 	sum.Rule = "layouts = lexeme lists of generated programs (value.New() grammar and a custom operator/text-operator table) x separator runs of up to 3 separators (none where the lexical rule allows, blank, tab, CR, LF, // and /* */ comments tight or set off, bodies with quotes, stars, slashes, LF; comment at end of input) x {comments on/off, comfort on/off}; string literals and quoted identifiers from the stratified Unicode generator; all comfort juxtaposition patterns; malformed stream (random bytes, token soup, mutated programs, unterminated literals/comments, NUL, invalid UTF-8). Non-trivial = a token boundary; distinct by (left token class, separator shape, right token class, comments, comfort) and by (literal kind, special rune classes)"
-	cw := NewCaseWriter(outDir, "From P2 Require Import Base.Prelude Lex.Token Lex.Tok Run.C15Run.", "c15_case", "c15_id", "c15_im", "c15_is", 100)
+	cw := NewCaseWriter(outDir, "From P2 Require Import Base.Prelude Lex.Token Lex.Tok Run.C15Run.", "c15_case", "c15_id", "c15_im", "c15_is", 300)
 	cw.prelude = getCfg("value", false, false).coqTables() + getCfg("custom", false, false).coqTables()
 	log.SetOutput(io.Discard) // the parser logs recovered optimizer panics (1/0 ...)
 	x := &c15run{sum: sum, cw: cw}
@@ -1394,10 +1758,12 @@ func cmdC15(seed int64, tier, outDir string) {
 		finish()
 		return
 	}
-	nProg, nLit, nMal = nProg*optBoost, nLit*optBoost, nMal*optBoost
+	nProg, nLit, nMal, nErr = nProg*optBoost, nLit*optBoost, nMal*optBoost, nErr*optBoost
 	x.corpus()
 	x.comfortPatterns()
+	x.quotedPoolCases()
 	x.literalCases(r, nLit)
+	x.errorLineCases(NewRng(seed+7), nErr)
 	x.programCases(r, nProg)
 	x.malformed(r, nMal)
 	finish()
